@@ -200,12 +200,20 @@ def concretise(chk, sc, cfgseed, ndims, style=None):
     with open(os.path.join(ldir, "Cell_H"), "w") as c:
         c.write("1\n1\n%d\n0\n" % st["nfline"])
         c.write("(%d 0\n" % st["cnt1"])
-        for bl in st["boxlines"]:
+        for bi, bl in enumerate(st["boxlines"]):
             if bl["k"] == "box":
                 lo, hi = idx_range(ap, lv, bl["idx"])
                 c.write("((%s) (%s) (%s))\n" % (",".join(map(str, lo)), ",".join(map(str, hi)), z))
             else:
-                c.write("((0,0 (7,\n")
+                # an entry that cannot be parsed: cut short, or -- with every integer of the entry still there -- a stray
+                # character in a number, a missing blank between the corners, another separator, a token too many
+                lo, hi = idx_range(ap, lv, min(bi + 1, nb))
+                slo, shi = ",".join(map(str, lo)), ",".join(map(str, hi))
+                c.write(["((0,0 (7,\n",
+                         "((%s) (%sx) (%s))\n" % (slo, shi, z),
+                         "((%s)(%s) (%s))\n" % (slo, shi, z),
+                         "((%s) (%s) (%s))\n" % (slo.replace(",", ";", 1), shi, z),
+                         "((%s) (%s) (%s)) 1\n" % (slo, shi, z)][(cfgseed + bi) % 5])
         c.write(")\n")
         c.write("%d\n" % st["cnt2"])
         for k, fl in enumerate(st["fodlines"]):
